@@ -153,9 +153,14 @@ ck.declare('D2_commit_only_from_prepared', 'commit / abort', 'commit succeeds on
 ck.declare('D3_locks_released', 'commit / abort / cleanup_timeouts', 'every lock handle of a Yes vote of the finished transaction is handed to the lock manager for release')
 ck.declare('D4_timeout_once', 'cleanup_timeouts', 'a timed-out transaction is removed and queued for abort exactly once; one that has not timed out is untouched')
 prepared_seen = aborting_seen = 0
-for np_ in NP:
-    for nv in range(0, np_ + 1):
-        for other in (False, True):
+
+
+def _coord_case(case):
+    global prepared_seen, aborting_seen
+    np_, nv, other = case
+    prepared_seen = aborting_seen = 0
+    for _a in (0,):
+        for _b in (0,):
             # ---------------- record_vote
             st = ex.new_state()
             co = Coord(st, np_, nv, other)
@@ -301,6 +306,12 @@ for np_ in NP:
                         released = [x[1] for x in r.st.notes if x[0] == 'release_handle']
                         need = [z3.Implies(co.vkind[i] == PV['Yes'], z3.Or([rr.v == co.vhandle[i] for rr in released]) if released else z3.BoolVal(False)) for i in range(nv)]
                         ck.require(ex, 'D3_locks_released', r.pc, None, z3.And(need) if need else z3.BoolVal(True), wit, lambda m, w: 'timeout-locks')
+    return prepared_seen, aborting_seen
+
+
+_cases = [(np_, nv, other) for np_ in NP for nv in range(0, np_ + 1) for other in (False, True)]
+_seen = [r for r in ck.parallel(_cases, _coord_case, jobs=12 if T == 'thorough' else 4) if r]
+prepared_seen, aborting_seen = sum(a for a, _ in _seen), sum(b for _, b in _seen)
 if prepared_seen == 0 or aborting_seen == 0:
     ck.inconclusive.append(f'vacuous: Prepared reached on {prepared_seen} paths, Aborting on {aborting_seen}')
 ck.notes.append(f'record_vote: Prepared on {prepared_seen} paths, Aborting on {aborting_seen} paths')
